@@ -114,6 +114,9 @@ func WriterMain(arg string) int {
 		return 3
 	}
 	out := bufio.NewWriter(os.Stdout)
+	if a.Profile == "masspurge" {
+		return massPurgeWriter(a, out)
+	}
 	if a.Clock != 0 {
 		base := a.Clock
 		var n atomic.Uint64
@@ -323,6 +326,52 @@ func WriterMain(arg string) int {
 
 func nullCtx(c *sup.Ctx) { sup.InitNullCtx(c) }
 
+// massPurgeWriter (profile "masspurge"): a.Ops tombstones (a third of them with a system xattr) spread over two
+// collections, 20 live documents, then one PurgeTombstones call during which the process kills itself at the
+// a.Nth hit of hook point a.Point (counted from the start of the call).
+func massPurgeWriter(a WriterArgs, out *bufio.Writer) int {
+	ctx := context.Background()
+	b, err := rosmar.OpenBucket("rosmar://"+a.Dir+"/"+a.Name, a.Name, rosmar.CreateNew)
+	if err != nil {
+		fmt.Fprintln(os.Stderr, "open:", err)
+		return 4
+	}
+	cols := []sgbucket.DataStore{b.DefaultDataStore()}
+	if ds, err := b.NamedDataStore(kv.CollNames[1]); err == nil {
+		cols = append(cols, ds)
+	}
+	for i := 0; i < a.Ops; i++ {
+		c := cols[i%len(cols)]
+		key := fmt.Sprintf("t%d", i)
+		if i%3 == 0 {
+			_, _ = c.WriteWithXattrs(ctx, key, 0, 0, []byte(`{"t":1}`), map[string][]byte{"_sync": []byte(`{"rev":"1-a"}`)}, nil, nil)
+		} else {
+			_ = c.SetRaw(key, 0, nil, []byte("x"))
+		}
+		_ = c.Delete(key)
+	}
+	for i := 0; i < 20; i++ {
+		_ = cols[i%len(cols)].SetRaw(fmt.Sprintf("live%d", i), 0, nil, []byte("l"))
+	}
+	uuid, _ := b.UUID()
+	emit(out, "OPENED", map[string]any{"uuid": uuid, "pid": os.Getpid()})
+	var hits atomic.Int64
+	if a.Point != "" {
+		rosmar.VerifSetPointHandler(func(p string) {
+			if p == a.Point && int(hits.Add(1)) == a.Nth {
+				_ = syscall.Kill(os.Getpid(), syscall.SIGKILL)
+				time.Sleep(time.Hour)
+			}
+		})
+	}
+	emit(out, "PURGE-INTENT", map[string]int{"tombstones": a.Ops})
+	n, perr := b.PurgeTombstones()
+	emit(out, "PURGE-ACK", map[string]any{"count": n, "ok": perr == nil})
+	_ = syscall.Kill(os.Getpid(), syscall.SIGKILL)
+	time.Sleep(time.Hour)
+	return 0
+}
+
 // ---------------------------------------------------------------- reader
 
 type ReaderArgs struct {
@@ -335,6 +384,7 @@ type ReaderArgs struct {
 	WaitExp      int      `json:"waitExp"` // ms to keep polling the "expiring" documents
 	NewWrites    int      `json:"newWrites"`
 	TryCreateNew bool     `json:"tryCreateNew"` // first try to open with CreateNew (must be refused: the bucket exists) - and must not harm it
+	CountAll     bool     `json:"countAll"`     // count tombstones and live documents of every opened collection through a Dump feed from CAS 0
 }
 
 type ReaderOut struct {
@@ -353,6 +403,9 @@ type ReaderOut struct {
 	OpenedAt          int64             `json:"openedAtUnixMs"`
 	CreateNewAccepted bool              `json:"createNewAccepted,omitempty"`
 	AdminFill         map[string]int    `json:"adminFill"` // admin-created collection -> filler documents readable after reopen
+	Tombstones        int               `json:"tombstones"`
+	LiveDocs          int               `json:"liveDocs"`
+	CountErr          string            `json:"countErr,omitempty"`
 }
 
 // ReaderMain is the body of `vcheck crashreader <json>`: a fresh process reopens the bucket and dumps what it sees.
@@ -443,6 +496,35 @@ func ReaderMain(arg string) int {
 			}
 			return true
 		}, nil)
+	}
+	if a.CountAll {
+		for _, c := range cols {
+			if c == nil {
+				continue
+			}
+			var tombs, live atomic.Int64
+			done := make(chan struct{})
+			ferr := c.StartDCPFeed(ctx, sgbucket.FeedArguments{ID: "count", Backfill: 0, Dump: true, DoneChan: done}, func(e sgbucket.FeedEvent) bool {
+				switch e.Opcode {
+				case sgbucket.FeedOpDeletion:
+					tombs.Add(1)
+				case sgbucket.FeedOpMutation:
+					live.Add(1)
+				}
+				return true
+			}, nil)
+			if ferr != nil {
+				out.CountErr = ferr.Error()
+				continue
+			}
+			select {
+			case <-done:
+			case <-time.After(30 * time.Second):
+				out.CountErr = "dump feed did not finish within 30 s"
+			}
+			out.Tombstones += int(tombs.Load())
+			out.LiveDocs += int(live.Load())
+		}
 	}
 	if dd, err := cols[0].GetDDocs(); err == nil {
 		out.DDocDefs = map[string]string{}
